@@ -100,6 +100,10 @@ func localsText(rs []LRule) string {
 				fmt.Fprintf(&sb, "  hold(e, %d)\n", n)
 			case "CF":
 				fmt.Fprintf(&sb, "  conc {\n    %s = wrhold(e, %d)\n    boomc()\n  }\n", op.Name, n)
+			case "CW":
+				fmt.Fprintf(&sb, "  conc {\n    %s = wrhold(e, %d)\n    noopc()\n  }\n", op.Name, n)
+			case "T":
+				fmt.Fprintf(&sb, "  stag.StopTag = tagv(e, %d)\n", n)
 			case "WI":
 				fmt.Fprintf(&sb, "  inj.%s = wr(e, %d)\n", op.Name, n)
 			case "RI":
@@ -160,6 +164,11 @@ func localsAPI() map[string]interface{} {
 			return v
 		},
 		"boomc": func() { panic("conc branch fails") },
+		"noopc": func() {},
+		"tagv": func(e int64, i int64) bool {
+			theObs.Emit(obs.Event{"ev": "eop", "e": e, "i": i, "val": 0})
+			return true
+		},
 		"hold": func(e int64, i int64) {
 			theObs.Hold(obs.Event{"ev": "eop", "e": e, "i": i, "val": 0}, "hold")
 		},
@@ -255,6 +264,7 @@ func runLocals(s *Session, quiet time.Duration, seed int64, tmo time.Duration) (
 				err, _ = dispatch.PoolCall(pool, c, st, data)
 			} else {
 				rb.Dc.Add("q", q)
+				rb.Dc.Add("stag", st)
 				for k, v := range frMaps(s.Rules, q) {
 					rb.Dc.Add(k, v)
 				}
